@@ -67,6 +67,26 @@ class Item:
         return "I%r#%r%s" % (self.key, self.uid, "" if self.truth else "f")
 
 
+class TolerantKey:
+    """
+    A key whose equality is reflexive and symmetric but not transitive (equal when at most 1 apart), and that only
+    knows how to compare itself with its own kind (``other.v`` - a foreign object makes ``==`` raise)
+    """
+
+    __slots__ = ("v",)
+
+    def __init__(self, v):
+        self.v = v
+
+    def __eq__(self, other):
+        return abs(self.v - other.v) <= 1
+
+    __hash__ = None
+
+    def __repr__(self):
+        return "Tol(%r)" % (self.v,)
+
+
 class AwaitableItem:
     """
     An *item* that happens to be awaitable (a future to pass on, a job handle): data like any other item, equal
@@ -119,6 +139,8 @@ def ident(x):
         return ("data_awaitable", x.name)
     if t is AwaitableItem:
         return ("awaitable_item", x.uid)
+    if t is TolerantKey:
+        return ("tol", x.v)
     if isinstance(x, ResultObject):
         return ("instance_of", ident(x.value))
     return ("o", t.__name__)
@@ -819,6 +841,8 @@ def _behave(kind, param, args, feed):
         if type(uid) is tuple:
             uid = uid[1] if len(uid) == 2 and type(uid[1]) is int else 0
         return (uid if type(uid) is int else 0) % 3
+    if kind == "tol":
+        return TolerantKey(keyof(args[0]))
     if kind == "divnone":
         return (keyof(args[0]) // (param + 2)) or None
     if kind == "neg":
